@@ -191,7 +191,9 @@ func valuesGen(tier string, r *rng, emit func(string)) {
 			var sb strings.Builder
 			for j := 0; j < len(op); j++ {
 				ch := op[j]
-				isWord := func(c byte) bool { return c == '_' || c >= '0' && c <= '9' || c >= 'a' && c <= 'z' || c >= 'A' && c <= 'Z' }
+				isWord := func(c byte) bool {
+					return c == '_' || c >= '0' && c <= '9' || c >= 'a' && c <= 'z' || c >= 'A' && c <= 'Z'
+				}
 				if ch >= 'a' && ch <= 'c' && (j == 0 || !isWord(op[j-1]) && op[j-1] != '"' && op[j-1] != '.') && (j+1 == len(op) || !isWord(op[j+1])) {
 					sb.WriteString(perm[ch-'a'])
 				} else {
